@@ -1,0 +1,57 @@
+//go:build verif
+
+package datastore
+
+import (
+	"context"
+	"sync"
+
+	sdcpb "github.com/sdcio/sdc-protos/sdcpb"
+
+	"github.com/sdcio/data-server/pkg/cache"
+	"github.com/sdcio/data-server/pkg/config"
+	schemaClient "github.com/sdcio/data-server/pkg/datastore/clients/schema"
+	"github.com/sdcio/data-server/pkg/datastore/target"
+	"github.com/sdcio/data-server/pkg/datastore/types"
+	"github.com/sdcio/data-server/pkg/schema"
+)
+
+// NewWithTarget performs the same initialisation as New but installs the given
+// southbound target instead of dialing one, and does not spawn the connect /
+// sync / deviation goroutines. Verification harness only.
+func NewWithTarget(ctx context.Context, c *config.DatastoreConfig, sc schema.Client, cc cache.Client, t target.Target) *Datastore {
+	ds := &Datastore{
+		config:                   c,
+		schemaClient:             schemaClient.NewSchemaClientBound(c.Schema.GetSchema(), sc),
+		cacheClient:              cc,
+		m:                        &sync.RWMutex{},
+		md:                       &sync.RWMutex{},
+		dmutex:                   &sync.Mutex{},
+		deviationClients:         make(map[string]sdcpb.DataServer_WatchDeviationsServer),
+		currentIntentsDeviations: make(map[string][]*sdcpb.WatchDeviationResponse),
+	}
+	ds.transactionManager = types.NewTransactionManager(NewDatastoreRollbackAdapter(ds))
+	if c.Sync != nil {
+		ds.synCh = make(chan *target.SyncUpdate, c.Sync.Buffer)
+	}
+	ctx, cancel := context.WithCancel(ctx)
+	ds.cfn = cancel
+	ds.initCache(ctx)
+	ds.sbi = t
+	return ds
+}
+
+// VerifPeekTransaction is a read-only observer of the transaction slot.
+func (d *Datastore) VerifPeekTransaction() (id string, open bool, timerArmed bool) {
+	return d.transactionManager.VerifPeek()
+}
+
+// VerifRunDeviationCycle runs exactly one deviation cycle on the given streams.
+func (d *Datastore) VerifRunDeviationCycle(ctx context.Context, dm map[string]sdcpb.DataServer_WatchDeviationsServer) {
+	d.runDeviationUpdate(ctx, dm)
+}
+
+// VerifSchemaClientBound exposes the bound schema client of the datastore.
+func (d *Datastore) VerifSchemaClientBound() schemaClient.SchemaClientBound {
+	return d.schemaClient
+}
